@@ -55,8 +55,11 @@ func human(c lexh.Case) string {
 
 func humanBuild(b lexh.BuildCase) string {
 	goStmt := ""
-	if b.Kind == 'P' || b.Kind == 'T' {
+	if b.GoStmt() {
 		goStmt = "AllowGoStmt; "
+	}
+	if b.Natives() {
+		goStmt += "native package nat; "
 	}
 	if b.Program() && len(b.Files) == 1 {
 		return fmt.Sprintf("Build(%smain.go=%q)", goStmt, b.Files["main.go"])
@@ -295,7 +298,7 @@ func run(c *hx.Ctx) error {
 				return fmt.Errorf("known finding %s: %v", f.ID, err)
 			}
 			if br := buildOne(b); buildClause(br) != "" {
-				knownSig[f.ID] = buildClause(br) + "|" + digitsRe.ReplaceAllString(br.Msg, "#") + "|" + br.Site
+				knownSig[f.ID] = buildClause(br) + "|" + normMsg(br.Msg) + "|" + br.Site
 				res.AddBreak(proto.Break{Kind: "property", Name: buildClause(br), Case: "C04 " + f.Minimal, Human: humanBuild(b),
 					Impl: br.Status + " " + br.Msg + " @" + br.Site, Model: "no panic, no crash, no hang, no leak", Finding: f.ID})
 			}
@@ -314,7 +317,7 @@ func run(c *hx.Ctx) error {
 				return fmt.Errorf("known finding %s: bad `also` entry %q", a.ID, line)
 			}
 			br := buildOne(b)
-			if cl := buildClause(br); cl != "" && cl+"|"+digitsRe.ReplaceAllString(br.Msg, "#")+"|"+br.Site == knownSig[a.ID] {
+			if cl := buildClause(br); cl != "" && cl+"|"+normMsg(br.Msg)+"|"+br.Site == knownSig[a.ID] {
 				alsoOf[line] = a.ID
 				res.Hist("known-also-confirmed")
 			} else {
@@ -585,7 +588,7 @@ func run(c *hx.Ctx) error {
 		if clause == "no-goroutine-left" { // the message is that of the build error, which is beside the point
 			return clause
 		}
-		return clause + "|" + digitsRe.ReplaceAllString(br.Msg, "#") + "|" + br.Site
+		return clause + "|" + normMsg(br.Msg) + "|" + br.Site
 	}
 	for i, b := range builds {
 		br := lexh.ParseBuildResult(bans[i])
@@ -653,7 +656,7 @@ func run(c *hx.Ctx) error {
 		min := b
 		same := func(bb lexh.BuildCase) bool {
 			r2 := buildOne(bb)
-			return buildClause(r2) == clause && digitsRe.ReplaceAllString(r2.Msg, "#") == digitsRe.ReplaceAllString(br.Msg, "#") && r2.Site == br.Site
+			return buildClause(r2) == clause && normMsg(r2.Msg) == normMsg(br.Msg) && r2.Site == br.Site
 		}
 		if nShrunk <= 60 {
 			// first drop the files that are not needed
@@ -720,9 +723,30 @@ func run(c *hx.Ctx) error {
 				nf[n] = md
 				min = lexh.BuildCase{Kind: min.Kind, Entry: min.Entry, Files: nf}
 			}
+			// files that the shrunk sources do not need any more
+			for _, n := range sortedNames(min.Files) {
+				if n == min.Entry || len(min.Files) == 1 {
+					continue
+				}
+				nf := map[string][]byte{}
+				for k, v := range min.Files {
+					if k != n {
+						nf[k] = v
+					}
+				}
+				if cand := (lexh.BuildCase{Kind: min.Kind, Entry: min.Entry, Files: nf}); same(cand) {
+					min = cand
+				}
+			}
 			// without AllowGoStmt, if it does not matter
-			if min.Kind == 'T' || min.Kind == 'P' {
-				if cand := (lexh.BuildCase{Kind: min.Kind - 'A' + 'a', Entry: min.Entry, Files: min.Files}); same(cand) {
+			if min.GoStmt() {
+				if cand := (lexh.BuildCase{Kind: lexh.KindOf(min.Program(), min.Natives(), false), Entry: min.Entry, Files: min.Files}); same(cand) {
+					min = cand
+				}
+			}
+			// without the native package, if it does not matter
+			if min.Natives() {
+				if cand := (lexh.BuildCase{Kind: lexh.KindOf(min.Program(), false, min.GoStmt()), Entry: min.Entry, Files: min.Files}); same(cand) {
 					min = cand
 				}
 			}
@@ -826,6 +850,11 @@ func hugeArrayClass(c *hx.Ctx, b lexh.BuildCase, br lexh.BuildResult, buildOne f
 }
 
 var digitsRe = regexp.MustCompile(`[0-9]+`)
+var exprSuffixRe = regexp.MustCompile(` \(expr: .*\)$`)
+
+// normMsg is a panic or error message without what varies with the input: numbers, the expression quoted at its end.
+func normMsg(m string) string { return digitsRe.ReplaceAllString(exprSuffixRe.ReplaceAllString(m, ""), "#") }
+
 var pkgClauseRe = regexp.MustCompile(`^[ \t\n]*package[ \t]+[A-Za-z_][A-Za-z0-9_]*`)
 
 func firstWords(s string, n int) string {
